@@ -90,7 +90,7 @@ def run(ctx):
     else:
         cfgs = S.all_rational() + S.pick_rational(rng, 300)
         cap = 2000
-    results = S.pool_map(S.job_rows, [(c, cap) for c in cfgs])
+    results = S.pool_map(S.job_rows, [(c, cap, 3e6 if quick else 8e6) for c in cfgs])
     worst, n_eval, measured, sigs = {}, 0, 0, set()
     for r in results:
         if "error" in r:
